@@ -34,7 +34,14 @@ Specs(B, T, D, s, e, acc) ==
            ELSE LET m == MatchParen(T, s + 1)  x == ExprOf(B, T, s + 2, m) IN
              IF m = 0 THEN GErr("unbalanced_check") ELSE IF ~x.ok THEN GErr("check:" \o x.tr.why) ELSE Specs(B, T, D, m + 1, e, Append(acc, [k |-> "Check", e |-> x.tr]))
       [] u = "COMMENT" -> IF B = "mysql" /\ Tk(T, s + 1).k = "str" THEN Specs(B, T, D, s + 2, e, Append(acc, [k |-> "Comment", s |-> T[s + 1].v])) ELSE GErr("malformed_comment")
-      [] u = "GENERATED" -> Specs(B, T, D, nx, e, Append(acc, [k |-> "Generated"]))
+      [] u = "GENERATED" ->
+           \* GENERATED ALWAYS AS ( expr ) [STORED | VIRTUAL]   (PostgreSQL: STORED is mandatory)
+           IF ~(IsWordU(T, s + 1, "ALWAYS") /\ IsWordU(T, s + 2, "AS") /\ Tk(T, s + 3).k = "lp") THEN GErr("malformed_generated_clause")
+           ELSE LET m == MatchParen(T, s + 3)  x == ExprOf(B, T, s + 4, m)
+                    st == IsWordU(T, m + 1, "STORED")  vi == IsWordU(T, m + 1, "VIRTUAL") IN
+             IF m = 0 THEN GErr("unbalanced_generated_expression") ELSE IF ~x.ok THEN GErr("generated:" \o x.tr.why)
+             ELSE IF B = "pg" /\ ~st THEN GErr("pg_generated_column_must_be_STORED")
+             ELSE Specs(B, T, D, IF st \/ vi THEN m + 2 ELSE m + 1, e, Append(acc, [k |-> "Generated", e |-> x.tr, stored |-> st]))
       [] OTHER -> GErr("unexpected_token_in_column_definition:" \o u)
 
 \* name type specs... filling [s, e)
@@ -202,8 +209,29 @@ ParseDDL(B, sql) ==
        IN IF ine /\ B = "mysql" THEN GErr("mysql_has_no_CREATE_INDEX_IF_NOT_EXISTS")
           ELSE IF ~(on = b + 1 /\ T[b].k = "qid") THEN GErr("create_index_name")
           ELSE IF ~tbl.ok THEN tbl ELSE IF ~cols.ok THEN cols
-          ELSE GOk([kind |-> "create_index", name |-> T[b].v, unique |-> W(2, "UNIQUE"), fulltext |-> W(2, "FULLTEXT"), if_not_exists |-> ine,
-                    table |-> tbl.v, cols |-> cols.v, using |-> using1, rest |-> Texts(T, m + 1, n + 1)], n + 1)
+          ELSE LET \* after the column list:  PostgreSQL [INCLUDE ( cols )] [NULLS NOT DISTINCT] [WHERE predicate]
+                   \*                          SQLite [WHERE predicate]        MySQL [USING type]
+                   r0 == m + 1
+                   hasInc == W(r0, "INCLUDE") /\ Tk(T, r0 + 1).k = "lp"
+                   incEnd == IF hasInc THEN MatchParen(T, r0 + 1) ELSE 0
+                   inc == IF hasInc THEN QidList(T, r0 + 2, incEnd, <<>>) ELSE GOk(<<>>, 0)
+                   r1 == IF hasInc THEN incEnd + 1 ELSE r0
+                   nnd == W(r1, "NULLS") /\ W(r1 + 1, "NOT") /\ W(r1 + 2, "DISTINCT")
+                   r2 == IF nnd THEN r1 + 3 ELSE r1
+                   using2 == IF W(r2, "USING") /\ r2 + 1 <= n THEN T[r2 + 1].u ELSE ""
+                   r3 == IF using2 # "" THEN r2 + 2 ELSE r2
+                   hasWhere == W(r3, "WHERE")
+                   wh == IF hasWhere THEN ExprOf(B, T, r3 + 1, n + 1) ELSE Ok([k |-> "none"], 0)
+               IN IF (hasInc \/ nnd) /\ B # "pg" THEN GErr("include_and_nulls_not_distinct_are_postgres_only")
+                  ELSE IF hasWhere /\ B = "mysql" THEN GErr("mysql_has_no_partial_indexes")
+                  ELSE IF using2 # "" /\ B # "mysql" THEN GErr("index_type_after_columns_is_mysql_only")
+                  ELSE IF using1 # "" /\ using2 # "" THEN GErr("index_type_given_twice")
+                  ELSE IF ~inc.ok THEN inc
+                  ELSE IF ~hasWhere /\ r3 <= n THEN GErr("unexpected_tokens_after_index_columns")
+                  ELSE IF ~wh.ok THEN GErr("index_predicate:" \o wh.tr.why)
+                  ELSE GOk([kind |-> "create_index", name |-> T[b].v, unique |-> W(2, "UNIQUE"), fulltext |-> W(2, "FULLTEXT"), if_not_exists |-> ine,
+                            table |-> tbl.v, cols |-> cols.v, using |-> IF using1 # "" THEN using1 ELSE using2,
+                            include |-> [i \in DOMAIN inc.v |-> inc.v[i].n], nnd |-> nnd, where |-> wh.tr], n + 1)
      ELSE IF W(1, "DROP") /\ W(2, "INDEX") THEN
        LET ie == W(3, "IF") /\ W(4, "EXISTS")
            a == IF ie THEN 5 ELSE 3
@@ -310,6 +338,12 @@ TypeOk(B, t, ty, autoinc) ==
 Unsupported14(B, d) ==
   (d.stmt = "table_create" /\ B = "pg" /\ "indexes" \in DOMAIN d /\ \E i \in DOMAIN d.indexes : ~("primary" \in DOMAIN d.indexes[i] /\ d.indexes[i].primary) /\ ~("unique" \in DOMAIN d.indexes[i] /\ d.indexes[i].unique))
   \/ (d.stmt = "table_create" /\ B = "pg" /\ ("engine" \in DOMAIN d \/ "collate" \in DOMAIN d \/ "character_set" \in DOMAIN d))
+  \* MySQL has no partial indexes, covering columns or NULLS NOT DISTINCT; the builder drops them silently there
+  \/ (d.stmt = "index_create" /\ B = "mysql" /\ ("where" \in DOMAIN d \/ "include" \in DOMAIN d \/ ("nulls_not_distinct" \in DOMAIN d /\ d.nulls_not_distinct)))
+  \* PostgreSQL (<= 17) has stored generated columns only
+  \/ (B = "pg" /\ LET VirtualGen(c) == \E j \in DOMAIN c.specs : c.specs[j].k = "Generated" /\ ~c.specs[j].stored IN
+        (d.stmt = "table_create" /\ \E i \in DOMAIN d.cols : VirtualGen(d.cols[i]))
+        \/ (d.stmt = "table_alter" /\ \E i \in DOMAIN d.ops : "col" \in DOMAIN d.ops[i] /\ VirtualGen(d.ops[i].col)))
 DialectHasType(B, t) ==
   IF B = "mysql" THEN t.k \notin {"Interval", "Array", "Vector", "Cidr", "Inet", "MacAddr", "LTree", "Custom"}
   ELSE t.k \notin {"Year", "Custom", "Enum", "Array", "Vector", "Interval"}
